@@ -209,6 +209,21 @@ def run(ctx):
     hostile, stats = hostile_requests(TG, rnd, ctx.tier)
     reqs += hostile
     reqs += decoder_requests(rnd, ctx.tier)
+    # binaries holding an instruction of (nearly) the largest size the format can express, and each of them cut short by one word / one
+    # byte, through every entry point (implementation only: never a panic; see common.scale_modules)
+    scale = []
+    for label, sinsts, k in common.scale_modules(instgen.Gen(TG, random.Random(ctx.seed)), ctx.tier):
+        w2 = instgen.header(version=0x00010300, bound=70000)
+        for i_ in sinsts:
+            w2 += i_.words()
+        data = instgen.to_bytes(w2)
+        for ch in ("loadasm", "parse", "disasbin", "dismain"):
+            scale.append(f"{ch} {data.hex()}")
+        scale.append(f"loadasm {data[:-4].hex()}")
+        scale.append(f"parse {data[:-1].hex()}")
+    found_scale = C.oracle_search(ctx, scale, oracle, "hostile-scale")
+    ctx.oblige(f"oracle:largest instruction sizes through every entry point ({len(scale)} requests, implementation only)", not found_scale)
+    stats["scale"] = len(scale)
     if broken:
         found = C.oracle_search(ctx, reqs, oracle, "hostile")
         ctx.log(f"tie broken; oracle search on the implementation found a failing input: {found}")
